@@ -10,6 +10,8 @@
 
 /* bytes lib_hash_final allocates for a type (SHA-512/128 gets the 64-byte SHA-512 buffer) */
 #define SPEC_ALLOC_DIGEST(t) ((t) == 0 ? 20 : (t) == 1 ? 32 : 64)
+#define HASH_TYPE_OF(h) ((h)->type == NULL ? -1 : (h)->type->type)
+#define HASH_TYPE_OLD(h) (V_OLD((h)->type) == NULL ? -1 : V_OLD((h)->type)->type)
 #define HASH_OBJ_WF(h) (__CPROVER_rw_ok((h), sizeof(zckHash)) && ((h)->type == NULL || __CPROVER_r_ok((h)->type, sizeof(zckHashType))))
 
 char *get_digest_string(const char *digest, int size)
@@ -25,10 +27,11 @@ V_REQUIRES(HASH_OBJ_WF(hash))
 V_REQUIRES(hash_type == NULL || __CPROVER_r_ok(hash_type, sizeof(*hash_type)))
 V_ASSIGNS(hash->type, hash->ctx, g_hu_total, g_hu_seen, g_hu_ptr, g_hu_final, g_hu_inits; zck != NULL: zck->error_state)
 V_FREES(hash->ctx)
-V_ENSURES(!__CPROVER_return_value || (hash->type == hash_type && hash_type != NULL && hash->ctx != NULL && __CPROVER_is_fresh(hash->ctx, 1))) /*@C03.hash_init.initialised*/
+V_ENSURES(!__CPROVER_return_value || __CPROVER_is_fresh(hash->ctx, 1)) /*@C03.hash_init.ctx_allocated*/
+V_ENSURES(!__CPROVER_return_value || (hash->type == hash_type && hash_type != NULL && hash->ctx != NULL)) /*@C03.hash_init.initialised*/
 V_ENSURES(__CPROVER_return_value || zck == NULL || zck->error_state > 0 || hash->ctx == NULL) /*@C03.hash_init.failure*/
 V_ENSURES(__CPROVER_return_value || hash->ctx == NULL) /*@C03.hash_init.no_ctx_on_failure*/
-V_ENSURES(hash != g_hu_hash || (g_hu_total == 0 && g_hu_seen == 0 && g_hu_final == 0 && g_hu_inits == V_OLD(g_hu_inits) + 1)) /*@C06,C09.hash_init.restarts_stream*/
+V_ENSURES(hash != g_hu_hash || (g_hu_total == 0 && g_hu_seen == 0 && g_hu_final == V_OLD(g_hu_final) && g_hu_inits == V_OLD(g_hu_inits) + 1)) /*@C06,C09.hash_init.restarts_stream*/
 V_ENSURES(hash == g_hu_hash || (g_hu_total == V_OLD(g_hu_total) && g_hu_seen == V_OLD(g_hu_seen) && g_hu_ptr == V_OLD(g_hu_ptr) && g_hu_final == V_OLD(g_hu_final) && g_hu_inits == V_OLD(g_hu_inits))) /*@C06.hash_init.other_hash_untouched*/
 ;
 
@@ -54,9 +57,12 @@ V_REQUIRES(HASH_OBJ_WF(hash))
 V_ASSIGNS(hash->type, hash->ctx, g_hu_final, g_fin_val, g_fin_total, g_fin_seen, g_fin_ptr; zck != NULL: zck->error_state)
 V_FREES(hash->ctx)
 V_ENSURES(hash->ctx == NULL && hash->type == NULL) /*@C03.hash_finalize.closes_hash*/
-V_ENSURES(__CPROVER_return_value == NULL || (V_OLD(hash->type) != NULL && V_OLD(hash->ctx) != NULL && SPEC_HASH_VALID(V_OLD(hash->type)->type) && __CPROVER_is_fresh(__CPROVER_return_value, SPEC_ALLOC_DIGEST(V_OLD(hash->type)->type)))) /*@C03.hash_finalize.digest_buffer_size*/
+/* NOTE (CBMC): is_fresh must be reached on every path on which the result is not NULL, otherwise the
+ * result keeps an unknown value set and every later dereference is case-split over all objects */
+V_ENSURES(__CPROVER_return_value == NULL || __CPROVER_is_fresh(__CPROVER_return_value, SPEC_ALLOC_DIGEST(HASH_TYPE_OLD(hash)))) /*@C03.hash_finalize.digest_buffer_size*/
+V_ENSURES(__CPROVER_return_value == NULL || (V_OLD(hash->type) != NULL && V_OLD(hash->ctx) != NULL && SPEC_HASH_VALID(HASH_TYPE_OLD(hash)))) /*@C03.hash_finalize.needs_initialised_hash*/
 V_ENSURES(__CPROVER_return_value != NULL || zck == NULL || zck->error_state > 0 || V_OLD(hash->ctx) != NULL) /*@C03.hash_finalize.failure*/
-V_ENSURES(hash != g_hu_hash || __CPROVER_return_value == NULL || (g_hu_final == V_OLD(g_hu_final) + 1 && g_fin_total == g_hu_total && g_fin_seen == g_hu_seen && g_fin_ptr == g_hu_ptr && (!(g_k1 < (size_t)SPEC_ALLOC_DIGEST(V_OLD(hash->type)->type)) || g_fin_val == __CPROVER_return_value[g_k1]))) /*@C06,C09.hash_finalize.records_digest_byte*/
+V_ENSURES(hash != g_hu_hash || __CPROVER_return_value == NULL || (g_hu_final == V_OLD(g_hu_final) + 1 && g_fin_total == g_hu_total && g_fin_seen == g_hu_seen && g_fin_ptr == g_hu_ptr && (!(g_k1 < (size_t)SPEC_ALLOC_DIGEST(HASH_TYPE_OLD(hash))) || g_fin_val == __CPROVER_return_value[g_k1]))) /*@C06,C09.hash_finalize.records_digest_byte*/
 V_ENSURES((hash == g_hu_hash && __CPROVER_return_value != NULL) || (g_hu_final == V_OLD(g_hu_final) && g_fin_val == V_OLD(g_fin_val) && g_fin_total == V_OLD(g_fin_total) && g_fin_seen == V_OLD(g_fin_seen) && g_fin_ptr == V_OLD(g_fin_ptr))) /*@C06.hash_finalize.record_unchanged_elsewhere*/
 ;
 
@@ -65,7 +71,7 @@ int validate_header(zckCtx *zck)
 V_REQUIRES(__CPROVER_rw_ok(zck, sizeof(*zck)))
 V_REQUIRES(HASH_OBJ_WF(&zck->check_full_hash))
 V_REQUIRES(SPEC_HASH_VALID(zck->hash_type.type) && zck->hash_type.digest_size == SPEC_DIGEST_SIZE(zck->hash_type.type))
-V_REQUIRES(zck->header_digest == NULL || __CPROVER_r_ok(zck->header_digest, zck->hash_type.digest_size))
+V_REQUIRES(zck->header_digest != NULL && __CPROVER_r_ok(zck->header_digest, zck->hash_type.digest_size))
 V_ASSIGNS(zck->check_full_hash.type, zck->check_full_hash.ctx, zck->error_state, g_hu_total, g_hu_seen, g_hu_ptr, g_hu_final, g_hu_inits, g_fin_val, g_fin_total, g_fin_seen, g_fin_ptr)
 V_FREES(zck->check_full_hash.ctx)
 V_ENSURES(__CPROVER_return_value == 1 || __CPROVER_return_value == 0 || __CPROVER_return_value == -1) /*@C06.validate_header.ret*/
@@ -74,5 +80,59 @@ V_ENSURES(__CPROVER_return_value != 1 || &zck->check_full_hash != g_hu_hash || (
 V_ENSURES(__CPROVER_return_value != 1 || &zck->check_full_hash != g_hu_hash || !(g_k1 < (size_t)zck->hash_type.digest_size) || (zck->header_digest != NULL && g_fin_val == zck->header_digest[g_k1])) /*@C06.validate_header.accepts_only_if_every_digest_byte_equal*/
 V_ENSURES(__CPROVER_return_value != 1 || (zck->check_full_hash.ctx != NULL && zck->check_full_hash.type == &zck->hash_type)) /*@C06,C09.validate_header.reinitialises_running_hash*/
 V_ENSURES(__CPROVER_return_value == 1 || V_OLD(zck->error_state) > 0 || zck->error_state > 0 || __CPROVER_return_value == -1 || zck->check_full_hash.ctx == NULL) /*@C06.validate_header.failure*/
+;
+
+/* ---- chunk / data checksum verdicts (src/lib/hash/hash.c) ---------------------------------- */
+/* index invariant for one entry: its digest buffer has the index's digest size, which is the digest
+ * size of the chunk checksum type (index_read / index_create establish this) */
+#define CHUNK_WF(c) (__CPROVER_rw_ok((c), sizeof(zckChunk)) && (c)->zck != NULL && __CPROVER_rw_ok((c)->zck, sizeof(zckCtx)) && \
+    SPEC_HASH_VALID((c)->zck->chunk_hash_type.type) && (c)->zck->chunk_hash_type.digest_size == SPEC_DIGEST_SIZE((c)->zck->chunk_hash_type.type) && \
+    (c)->digest_size == (c)->zck->chunk_hash_type.digest_size && (c)->digest != NULL && __CPROVER_r_ok((c)->digest, (c)->digest_size))
+/* the running chunk hash is either closed or was initialised with the chunk checksum type */
+#define CHUNK_HASH_WF(z) (HASH_OBJ_WF(&(z)->check_chunk_hash) && ((z)->check_chunk_hash.type == NULL || (z)->check_chunk_hash.type == &(z)->chunk_hash_type))
+
+/* 1 = the bytes fed to check_chunk_hash since its last init hash to the index digest (an empty
+ * stored chunk is represented by an all-zero digest), -1 = they do not, 0 = error.
+ * Watched hash object for the ghost model: &idx->zck->check_chunk_hash. */
+int validate_chunk(zckChunk *idx, zck_log_type bad_checksum)
+V_REQUIRES(CHUNK_WF(idx))
+V_REQUIRES(CHUNK_HASH_WF(idx->zck))
+V_ASSIGNS(idx->valid, idx->zck->check_chunk_hash.type, idx->zck->check_chunk_hash.ctx, idx->zck->error_state, g_hu_final, g_fin_val, g_fin_total, g_fin_seen, g_fin_ptr)
+V_FREES(idx->zck->check_chunk_hash.ctx)
+V_ENSURES(__CPROVER_return_value == 1 || __CPROVER_return_value == 0 || __CPROVER_return_value == -1) /*@C02.validate_chunk.ret*/
+V_ENSURES(V_OLD(idx->zck->error_state) > 0 || idx->valid == __CPROVER_return_value) /*@C02,C09,C08,C05.validate_chunk.valid_flag_is_the_verdict*/
+V_ENSURES(__CPROVER_return_value != 1 || V_OLD(idx->zck->error_state) == 0) /*@C02,C12.validate_chunk.never_valid_on_a_context_in_error*/
+V_ENSURES(__CPROVER_return_value != 1 || &idx->zck->check_chunk_hash != g_hu_hash || (g_hu_final == V_OLD(g_hu_final) + 1 && g_fin_total == V_OLD(g_hu_total) && g_fin_seen == V_OLD(g_hu_seen) && g_fin_ptr == V_OLD(g_hu_ptr))) /*@C02,C15,C09.validate_chunk.verdict_is_over_everything_fed_since_init*/
+V_ENSURES(__CPROVER_return_value != 1 || &idx->zck->check_chunk_hash != g_hu_hash || idx->comp_length == 0 || !(g_k1 < (size_t)idx->digest_size) || g_fin_val == idx->digest[g_k1]) /*@C02,C15,C09,C08,C05.validate_chunk.valid_only_if_every_digest_byte_equal*/
+V_ENSURES(__CPROVER_return_value != 1 || idx->comp_length != 0 || !(g_k1 < (size_t)idx->digest_size) || idx->digest[g_k1] == 0) /*@C02,C09.validate_chunk.empty_chunk_needs_zero_digest*/
+V_ENSURES(V_OLD(idx->zck->error_state) > 0 || idx->zck->check_chunk_hash.ctx == NULL) /*@C03.validate_chunk.hash_closed*/
+V_ENSURES(__CPROVER_return_value != 0 || idx->zck->error_state > 0) /*@C12.validate_chunk.error_sets_error_state*/
+;
+
+int validate_current_chunk(zckCtx *zck)
+V_REQUIRES(__CPROVER_rw_ok(zck, sizeof(*zck)))
+V_REQUIRES(zck->comp.data_idx != NULL && CHUNK_WF(zck->comp.data_idx) && zck->comp.data_idx->zck == zck)
+V_REQUIRES(CHUNK_HASH_WF(zck))
+V_ASSIGNS(zck->comp.data_idx->valid, zck->check_chunk_hash.type, zck->check_chunk_hash.ctx, zck->error_state, g_hu_final, g_fin_val, g_fin_total, g_fin_seen, g_fin_ptr)
+V_FREES(zck->check_chunk_hash.ctx)
+V_ENSURES(__CPROVER_return_value == 1 || __CPROVER_return_value == 0 || __CPROVER_return_value == -1) /*@C02.validate_current_chunk.ret*/
+V_ENSURES(__CPROVER_return_value != 1 || (V_OLD(zck->error_state) == 0 && zck->comp.data_idx->valid == 1)) /*@C02,C15.validate_current_chunk.one_means_chunk_marked_valid*/
+V_ENSURES(__CPROVER_return_value != 1 || &zck->check_chunk_hash != g_hu_hash || (g_hu_final == V_OLD(g_hu_final) + 1 && g_fin_total == V_OLD(g_hu_total) && g_fin_seen == V_OLD(g_hu_seen))) /*@C02,C15.validate_current_chunk.verdict_is_over_everything_fed_since_init*/
+V_ENSURES(__CPROVER_return_value != 1 || &zck->check_chunk_hash != g_hu_hash || zck->comp.data_idx->comp_length == 0 || !(g_k1 < (size_t)zck->comp.data_idx->digest_size) || g_fin_val == zck->comp.data_idx->digest[g_k1]) /*@C02,C15.validate_current_chunk.valid_only_if_every_digest_byte_equal*/
+;
+
+/* whole-data checksum: 1 = matches the stored data checksum (or the file has the uncompressed-source
+ * flag, for which the format defines no data checksum), -1 = differs, 0 = error */
+int validate_file(zckCtx *zck, zck_log_type bad_checksums)
+V_REQUIRES(__CPROVER_rw_ok(zck, sizeof(*zck)))
+V_REQUIRES(HASH_OBJ_WF(&zck->check_full_hash) && (zck->check_full_hash.type == NULL || zck->check_full_hash.type == &zck->hash_type))
+V_REQUIRES(SPEC_HASH_VALID(zck->hash_type.type) && zck->hash_type.digest_size == SPEC_DIGEST_SIZE(zck->hash_type.type))
+V_REQUIRES(zck->has_uncompressed_source != 0 || (zck->full_hash_digest != NULL && __CPROVER_r_ok(zck->full_hash_digest, zck->hash_type.digest_size)))
+V_ASSIGNS(zck->check_full_hash.type, zck->check_full_hash.ctx, zck->error_state, g_hu_final, g_fin_val, g_fin_total, g_fin_seen, g_fin_ptr)
+V_FREES(zck->check_full_hash.ctx)
+V_ENSURES(__CPROVER_return_value == 1 || __CPROVER_return_value == 0 || __CPROVER_return_value == -1) /*@C02.validate_file.ret*/
+V_ENSURES(__CPROVER_return_value != 1 || zck->has_uncompressed_source != 0 || &zck->check_full_hash != g_hu_hash || (g_hu_final == V_OLD(g_hu_final) + 1 && g_fin_total == V_OLD(g_hu_total) && g_fin_seen == V_OLD(g_hu_seen))) /*@C02,C09.validate_file.verdict_is_over_everything_fed_since_init*/
+V_ENSURES(__CPROVER_return_value != 1 || zck->has_uncompressed_source != 0 || &zck->check_full_hash != g_hu_hash || !(g_k1 < (size_t)zck->hash_type.digest_size) || (zck->full_hash_digest != NULL && g_fin_val == zck->full_hash_digest[g_k1])) /*@C02,C09.validate_file.valid_only_if_every_digest_byte_equal*/
+V_ENSURES(__CPROVER_return_value != 0 || zck->error_state > 0) /*@C12.validate_file.error_sets_error_state*/
 ;
 #endif
